@@ -46,7 +46,7 @@ func scenarios(tier string) []svc.Scenario {
 		{Name: "subquery-tag", Program: []string{"import:P1+P2", "addtag:tag/b=cport:1", "addtag:tag/t=@sub:tag:b sport:@sub:sport@", "import:P3", "import:P4"}},
 		// a conversion job that finds everything cached already (its tag was re-evaluated without a new match)
 		// while more work is queued behind it
-		{Name: "converter-fruitless-job", Converter: true, Program: []string{"import:P1+P2", "addtag:tag/p=cport:1", "addtag:tag/q=sport:80", "converters:tag/p=conv", "import:P5", "converters:tag/q=conv"}},
+		{Name: "converter-fruitless-job", Converter: true, Program: []string{"import:P1+P2", "addtag:tag/p=cport:1", "converters:tag/p=conv", "import:P5", "addtag:mark/m=id:1", "converters:mark/m=conv"}},
 		// the converter executable is deleted / rewritten while its conversion job is in flight
 		{Name: "converter-removed", Converter: true, Program: []string{"import:P1", "addtag:tag/p=cport:1", "converters:tag/p=conv", "convdel:conv", "import:P2"}},
 		{Name: "converter-restarted", Converter: true, Program: []string{"import:P1", "addtag:tag/p=cport:1", "converters:tag/p=conv", "convrestart:conv", "import:P3"}},
@@ -64,6 +64,7 @@ func scenarios(tier string) []svc.Scenario {
 			svc.Scenario{Name: "two-tags-and-reference", Program: []string{"import:P1", "addtag:tag/d=cdata:foo3", "addtag:tag/p=sport:53", "addtag:tag/r=tag:d -tag:p", "import:P3"}},
 			svc.Scenario{Name: "two-tags-edit", Program: []string{"import:P1", "addtag:tag/p=cport:1", "addtag:tag/q=sport:53", "updtag:tag/p=cport:2000", "import:P2", "deltag:tag/q"}},
 			svc.Scenario{Name: "three-tags", Program: []string{"addtag:tag/p=cport:1", "addtag:tag/d=cdata:foo3", "addtag:service/s=sport:53", "import:P1", "import:P3"}},
+			svc.Scenario{Name: "converter-fruitless-job-two-tags", Converter: true, Program: []string{"import:P1+P2", "addtag:tag/p=cport:1", "addtag:tag/q=sport:80", "converters:tag/p=conv", "import:P5", "converters:tag/q=conv"}},
 			svc.Scenario{Name: "restart", Program: []string{"import:P1", "addtag:tag/d=cdata:foo", "import:P2", "restart", "import:P3", "view.open:v1"}},
 		)
 	}
